@@ -37,7 +37,7 @@ def make_particle(spec):
             warnings.simplefilter("ignore")
             p.pdg = spec["pdg_prev"]
     for k, v in spec.items():
-        if k in ("pdg_prev", "pdg_werror"):
+        if k in ("pdg_prev", "pdg_werror", "via"):
             continue
         if k == "charge":
             p.data_[12] = float(v)  # the setter triples |q|<1; we set the stored value directly
@@ -50,6 +50,16 @@ def make_particle(spec):
                     pass
         else:
             setattr(p, k, v)
+    via = spec.get("via")   # the object handed to the code is a copy / an unpickled copy of the one built here
+    if via == "copy":
+        import copy
+        p = copy.copy(p)
+    elif via == "deepcopy":
+        import copy
+        p = copy.deepcopy(p)
+    elif via == "pickle":
+        import pickle
+        p = pickle.loads(pickle.dumps(p))
     return p
 
 
@@ -75,6 +85,8 @@ def gen_spec(rng, unset_prob=0.15, grid=None):
             s["pdg_prev"] = rng.choice(VALID_PDGS) if rng.random() < 0.7 else rng.choice(INVALID_PDGS)
             if rng.random() < 0.5:
                 s["pdg_werror"] = True
+    if rng.random() < 0.1:  # particle objects that went through copy / deepcopy / pickle must behave like the originals
+        s["via"] = rng.choice(["copy", "deepcopy", "pickle"])
     maybe("charge", lambda: rng.choice([-2, -1, 0, 0, 1, 1, 2]))
     maybe("ncoll", lambda: rng.choice([0, 0, 1, 2, 5]))
     maybe("status", lambda: rng.choice([-1, 0, 1, 11, 27]))
